@@ -287,6 +287,7 @@ func verifIdent(t pub.Tangible) string {
 var verifModes = map[int]string{loading: "loading", normal: "normal", command: "command", selection: "selection", opening: "opening", problem: "problem"}
 
 type verifSession struct {
+	lastFrame string
 	w       *verifWorld
 	s       *State
 	out     *verifkit.Trace
@@ -426,6 +427,9 @@ func (v *verifSession) callback(frame string) {
 		}
 	}
 	n := atomic.AddInt64(&v.frames, 1)
+	v.mu.Lock()
+	v.lastFrame = frame
+	v.mu.Unlock()
 	if v.emitFrames && v.s != nil {
 		/* the height the terminal really has: what the driver set last; a frame racing with a resize may
 		   still have the previous one (h2) */
@@ -446,11 +450,47 @@ func (v *verifSession) callback(frame string) {
 		}
 		ev := verifkit.M{"ev": "out", "kind": "frame", "chk": []string{"noctl", "neutral", "lines", "centred"}, "w": int(atomic.LoadInt32(&v.termW)), "h": h,
 			"toks": verifkit.Toks(frame, nil), "expect": verifkit.M{}, "sid": v.sid, "frame": n, "cursor_top": top, "cursor_rows": k}
+		/* the status line of the mode the interface is in as this frame is drawn (the frame is handed over by the
+		   goroutine that holds the state); judged when what was typed is plain text and the frame has the size asked for */
+		status := ""
+		switch v.s.mode {
+		case selection:
+			status = "Selecting " + v.s.buffer + " (press . to open internally, enter to open externally)"
+		case command:
+			status = ":" + v.s.buffer
+		}
+		plainText := status != ""
+		for _, r := range v.s.buffer {
+			plainText = plainText && r >= 0x20 && r < 0x7f
+		}
+		width := int(atomic.LoadInt32(&v.termW))
+		if plainText && width >= 2 && len(rows) == h && v.s.width == width {
+			want := []rune(status)
+			if len(want) > width-1 {
+				want = want[:width-1]
+			}
+			last := []rune(verifSGRre.ReplaceAllString(rows[len(rows)-1], ""))
+			if len(last) > len(want) {
+				last = last[:len(want)]
+			}
+			ev["chk"] = []string{"noctl", "neutral", "lines", "centred", "status"}
+			ev["status"], ev["lastline"] = string(want), string(last)
+		}
 		v.mu.Lock()
 		v.pending = append(v.pending, ev)
 		v.mu.Unlock()
 	}
 	atomic.AddInt32(&v.inCb, -1)
+}
+
+/* what the terminal shows is the frame written last: after a resize that has returned, that frame is as tall as the
+   terminal now is (only asked where nothing else resizes at the same time) */
+func (v *verifSession) screenCheck(desc string) {
+	v.mu.Lock()
+	frame := v.lastFrame
+	v.mu.Unlock()
+	v.out.Emit(verifkit.M{"ev": "out", "kind": "frame", "chk": []string{"lines"}, "w": int(atomic.LoadInt32(&v.termW)), "h": int(atomic.LoadInt32(&v.termH)),
+		"toks": verifkit.Toks(frame, nil), "expect": verifkit.M{}, "sid": v.sid, "frame": -1, "cursor_top": -1, "cursor_rows": 0, "src": "the screen after " + desc})
 }
 
 func (v *verifSession) flushFrames() {
@@ -892,6 +932,27 @@ func verifStatusLine(w *verifWorld, out *verifkit.Trace, sid *int, rng *rand.Ran
 		}
 		v.flushFrames()
 		out.Emit(verifkit.M{"ev": "status", "sid": *sid, "scenario": "command typed key by key", "w": width, "typed": done, "panic": panicked, "what": what})
+	}
+	/* a resize right after a key, and two resizes in a row: what is on the screen afterwards has the new height */
+	for round := 0; round < 12; round++ {
+		*sid++
+		v := verifNewSession(w, out, *sid, true)
+		if err := v.s.Subcommand("open", w.h.URL(w.startA)); err != nil || !v.settle(8*time.Second) {
+			continue
+		}
+		for k, key := range []byte{'j', 'k', ':', 27, '1', 27} {
+			v.s.Update(key)
+			v.resize(40+round, 9+k+round%3)
+			v.screenCheck("a key and a resize")
+			v.resize(41+round, 5+k)
+			v.resize(39+round, 14-k)
+			v.screenCheck("two resizes in a row")
+			if key == 'j' && round%2 == 0 {
+				time.Sleep(12 * time.Millisecond)
+			}
+		}
+		v.settle(3 * time.Second)
+		v.flushFrames()
 	}
 	/* "Opening <address>" cut to every width, for an address made of three-byte characters */
 	for width := 24; width <= 64; width += 1 + rng.Intn(3) {
